@@ -26,7 +26,12 @@ def owns(ob_):
 
 
 def build(world):
-    return hc.build_for(world, PROP)
+    # every reaction goes out through Gateway.send(..., message_buffer=False) and is verified against send's contract ("written at
+    # once, never parked; a send that raises wrote nothing"): that contract is proved in this check too (as in C10's and C12's)
+    from . import gateway_units as gu
+    units = hc.build_for(world, PROP)
+    have = {u.name for u in units}
+    return units + [u for u in gu.send_units(world) if u.name not in have]
 
 
 def extra_checks(world):
